@@ -278,6 +278,12 @@ func runC06(w *W) {
 	t := w.T
 	resetKnobs()
 	conv.DefaultBufferSize = 4096
+	if t.Chance(1, 2, "knob.any") {
+		// scratch caches of the native JSON state machine: their growth/re-entry paths see damaged input too
+		knobs.KeyCap = pickInt(t, "knob.keycap", -1, 0, 1, 8, 64)
+		knobs.FieldCap = pickInt(t, "knob.fieldcap", -1, 0, 2)
+		knobs.ReqsCap = pickInt(t, "knob.reqscap", -1, 0, 8, 64)
+	}
 	flavour := drawFlavour(w)
 	w.World.PoolFreshPct = pickInt(t, "knob.poolfresh", 20, 0, 100)
 	so := tgenOpts{MaxStructs: 1 + t.Intn(3, "sch.structs"), MaxFields: 1 + t.Intn(6, "sch.fields"), MaxDepth: 1 + t.Intn(3, "sch.depth"),
